@@ -98,13 +98,18 @@ func genScRoundtrip(h *H) {
 	if thorough {
 		ks = []int{1, 2, 3}
 	}
+	if !thorough && !h.specOracles {
+		s := h.randScSpec(1, 0)
+		h.tag("len:two-blocks-plus-one")
+		h.Run(scSealCase(s, [][]byte{h.rng.Bytes(2*mib + 1)}, sealRng(h.rng, 1), true))
+	}
 	for _, k := range ks {
 		for _, d := range []int{-1, 0, 1} {
 			s := h.randScSpec(1, 1)
 			h.tag("len:chunk-boundary")
 			msg := h.rng.Bytes(k*mib + d)
 			h.Run(scSealCase(s, [][]byte{msg}, sealRng(h.rng, 2), true))
-			pats := []int{k + d + 1, k + d + 3}
+			pats := []int{k + d + 2}
 			if thorough {
 				pats = []int{0, 1, 2, 3, 4}
 			}
